@@ -6,6 +6,7 @@ import Driver.C02
 import Driver.C03
 import Driver.C04
 import Driver.C05
+import Driver.C05B
 import Driver.C06
 import Driver.C07
 import Driver.C08
@@ -25,7 +26,7 @@ import Driver.C20
 open Verif Verif.Driver
 
 def allHandlers : List (String × Handler) :=
-  C01.handlers ++ C02.handlers ++ C03.handlers ++ C04.handlers ++ C05.handlers ++
+  C01.handlers ++ C02.handlers ++ C03.handlers ++ C04.handlers ++ C05.handlers ++ C05B.handlers ++
   C06.handlers ++ C07.handlers ++ C08.handlers ++ C09.handlers ++ C10.handlers ++
   C11.handlers ++ C12.handlers ++ C13.handlers ++ C14.handlers ++ C15.handlers ++
   C16.handlers ++ C17.handlers ++ C18.handlers ++ C19.handlers ++ C20.handlers ++
